@@ -96,7 +96,7 @@ impl Engine for C14 {
         let dir = sb.fresh("c14");
         let pipeline = case.p_str("pipeline");
         out.probe(&format!("pipeline_{pipeline}"), 1);
-        let steps = max_steps(&case.tier);
+        let steps = steps_for(case);
         match pipeline.as_str() {
             "oligo_mmap" | "oligo_batch" => {
                 let cfg = OligoCfg::from_params(&case.params);
